@@ -1,0 +1,33 @@
+//go:build verif && !no_workceptor
+// +build verif,!no_workceptor
+
+package workceptor
+
+// Instrumentation for the verification harness in /verif (build tag "verif"), add-only.
+//
+// A daemon that is ended with SIGKILL never writes its `go build -cover` counters.  When
+// GOCOVERDIR is set, SIGUSR1 makes the process write them (meta data + counters) to that
+// directory; the harness sends it before it kills a daemon.  Without -cover the calls return
+// an error that is ignored; without GOCOVERDIR nothing is installed.
+
+import (
+	"os"
+	"os/signal"
+	"runtime/coverage"
+	"syscall"
+)
+
+func init() {
+	dir := os.Getenv("GOCOVERDIR")
+	if dir == "" {
+		return
+	}
+	ch := make(chan os.Signal, 1)
+	signal.Notify(ch, syscall.SIGUSR1)
+	go func() {
+		for range ch {
+			_ = coverage.WriteMetaDir(dir)
+			_ = coverage.WriteCountersDir(dir)
+		}
+	}()
+}
